@@ -6,7 +6,7 @@
    gqlparser; oracle c02_holds in Gw/FedCheck.v). *)
 From Coq Require Import String List Bool.
 From GW Require Import Base.Res Base.GoStr Base.Json Gql.Syntax Gql.Schema Gw.Merge Gw.MergeCheck Gw.Locate Gw.Vars
-     Proofs.LocateProofs Proofs.RouteProofs Proofs.UrlProofs Proofs.VarsProofs.
+     Gw.Plan Proofs.LocateProofs Proofs.RouteProofs Proofs.UrlProofs Proofs.VarsProofs Proofs.PlanProofs.
 Import ListNotations.
 Open Scope string_scope.
 Open Scope list_scope.
@@ -20,6 +20,16 @@ Theorem C02_fields_confined : forall prios urls ft frags fuel ptype ploc path se
   Forall (confined urls) l.
 Proof. intros prios urls ft frags fuel ptype ploc path sels l H. apply route_sels_confined. exact H. Qed.
 Print Assumptions C02_fields_confined.
+
+(* The same for the planner model that builds the steps themselves (Gw/Plan.v: groupSelectionSet,
+   extractSelection, wrapSelectionSet and the step queue, for documents without named fragment
+   spreads; compared step by step with the implementation's plans on every run): in every step of
+   every plan, every field of the selection sent to the step's location is one the chooser places
+   there, or the join id the planner adds -- all the way down, through inline fragments. *)
+Theorem C02_every_step_is_confined : forall prios urls ft fuel root sels s,
+  plan_operation prios urls ft fuel root sels = Ok s -> step_confined prios urls ft fuel s.
+Proof. exact plan_confined. Qed.
+Print Assumptions C02_every_step_is_confined.
 
 (* ... the table gateway.New builds has no empty entry ... *)
 Theorem C02_routing_table_has_no_empty_entry : forall iloc sources internal qft key locs,
